@@ -136,3 +136,11 @@ func (r *Reactor) VerifSetSyncer(s *syncer) {
 	r.syncer = s
 	r.mtx.Unlock()
 }
+
+// VerifQueueHas reports whether the active chunk queue (if any) holds the chunk.
+func (s *syncer) VerifQueueHas(index uint32) bool {
+	s.mtx.RLock()
+	q := s.chunks
+	s.mtx.RUnlock()
+	return q != nil && q.Has(index)
+}
